@@ -260,12 +260,12 @@ func judgeEnforce(run *vlib.Run, o *vlib.Oracles, kc *kernelCase, st *kernelStat
 	replay := map[string]any{"check": run.ID, "desc": kc.desc, "goarch": kc.goarch, "case": kc.cc, "stdout_tail": tail(res.Stdout, 1200), "stderr_tail": tail(res.Stderr, 600)}
 	if res.TimedOut {
 		run.Count(prefix+"watchdog_fired", 1)
-		run.Inconclusive(fmt.Sprintf("watchdog: child did not finish (%s)", kc.desc))
+		run.SoftInconclusive(fmt.Sprintf("watchdog: child did not finish (%s)", kc.desc))
 		return false
 	}
 	loaded := res.Line("loaded")
 	if loaded == nil {
-		run.Inconclusive(fmt.Sprintf("child produced no 'loaded' line (%s): %s", kc.desc, tail(res.Stderr, 300)))
+		run.SoftInconclusive(fmt.Sprintf("child produced no 'loaded' line (%s): %s", kc.desc, tail(res.Stderr, 300)))
 		return false
 	}
 	// the program at the boundary
@@ -400,7 +400,7 @@ func judgeEnforce(run *vlib.Run, o *vlib.Oracles, kc *kernelCase, st *kernelStat
 			case kc.cc.KillThreadProbe:
 				if gone[i] != "thread-gone" {
 					if gone[i] == "thread-wait-timeout" {
-						run.Inconclusive("kill_thread probe: " + gone[i])
+						run.SoftInconclusive("kill_thread probe: " + gone[i])
 						return false
 					}
 					run.Violation("kill-thread-not-enforced", what+": "+gone[i], replay)
@@ -547,7 +547,7 @@ func c08() {
 				kc := buildKernelCase(r, o, ts, "amd64", []int{0, 1, 2}[i%3], false, false)
 				res, err := vlib.RunChild(bin, "enforce", kc.cc, false, 30*time.Second)
 				if err != nil || res.TimedOut {
-					run.Inconclusive("sanitizer child did not run")
+					run.SoftInconclusive("sanitizer child did not run")
 					return
 				}
 				run.Count("sanitizer_children:"+variant, 1)
